@@ -51,7 +51,7 @@ HREF_FORMS = [
     ('root', '/r/%s.css'), ('root-top', '/%s.css'), ('absolute-same-host', 'http://h/q/%s.css'), ('absolute-other-host', 'http://o/z/%s.css'), ('scheme-relative', '//o/y/%s.css'),
 ]  # fmt: skip
 URL_PROPS = ['background', 'background-image', 'list-style-image', 'cursor', 'content', 'src', 'border-image']
-MEDIA = [None, None, 'print', 'tv, print', 'screen and (min-width:1px)']
+MEDIA = [None, None, None, 'print', 'tv, print', 'screen and (min-width:1px)', 'screen and (min-width:100px), screen and (orientation:landscape)', 'screen and (color), screen']
 
 
 # ------------------------------------------------------------------------------------------------------------ part A
@@ -313,7 +313,11 @@ class Tree:
 
 
 def norm_media(c, m):
-    return c.stylesheets.MediaList(m).mediaText
+    """a media list as text, compared without regard to spelling (by the check's own reading, not by cssutils' MediaList)"""
+    import re
+
+    m = re.sub(r'/\*.*?\*/', ' ', m, flags=re.S).lower()
+    return ','.join(re.sub(r'\s*([():])\s*', r'\1', ' '.join(q.split())).strip() for q in m.split(','))
 
 
 def read_result(c, sheet, base):
